@@ -51,8 +51,15 @@ def main():
     try:
         rc = decide(pid, P, tier, seed, args.replay, scratch, t0)
     except engine.BuildError as e:
+        # the machinery could not be built against the tree under test (an extractor, the harness or the
+        # driver no longer compiles, or a domain run died): the correspondence is broken, so the property is
+        # no longer shown to hold — reported like a broken obligation for which no failing input was found
         print("ERROR build: %s" % e)
-        rc = 2
+        path = write_replay(pid, "proof-obligation", {"broken": [{"what": "the check could not be built / run against the tree under test",
+                                                                  "error": str(e)[-6000:]}],
+                                                      "note": "no correspondence run was possible"})
+        print("VIOLATION property=%s replay=%s no-failing-input-found" % (pid, path))
+        rc = 1
     finally:
         scratch.cleanup()
     sys.exit(rc)
